@@ -62,7 +62,22 @@ class Base(Component):
         add_resource(self.X(), "given")
         add_resource_factory(lambda: self.F(), types=[self.F])
 
-CLASSES = [type(f"Comp{k}", (Base,), {"K": k}) for k in range(N_CLASSES)]
+    def start_plain(self):
+        # start() need not be a coroutine function: a plain method that does part of the work when it is CALLED
+        # and hands back an awaitable for the rest -- all of it is the start phase
+        ctx = current_context()
+        if self.idx % 2:
+            ctx.add_resource(self.S())
+        else:
+            add_resource(self.S())
+
+        async def rest():
+            add_resource(self.X(), "given")
+            add_resource_factory(lambda: self.F(), types=[self.F])
+        return rest()
+
+CLASSES = [type(f"Comp{k}", (Base,), {"K": k, **({"start": Base.start_plain} if k % 2 else {})})
+           for k in range(N_CLASSES)]
 for _c in CLASSES:
     globals()[_c.__name__] = _c
     _c.__module__ = __name__
